@@ -21,6 +21,15 @@ ShiftNext == /\ \/ last.a \in {"init", "rejuvenate"}
                    /\ EditStepR({0}, {L}, {1..3, 2..4, 3..5}, {})
                 \/ last.a \notin {"init", "rejuvenate"} /\ Rejuvenate
              /\ h' = Append(h, last')
+\* temporary-feature run: a range filter is edited on some level (pending), a
+\* feature is assigned through a level, an event is excluded on some level,
+\* then the youngest member is refreshed
+TempNext == /\ \/ last.a \in {"init", "rejuvenate"}
+                  /\ \E l \in Levels, P \in {2..4, 1..3} : SetPred(l, P)
+               \/ last.a = "setpred" /\ \E l \in Levels, v \in {1, 2} : SetTemp(l, v)
+               \/ last.a = "settemp" /\ \E l \in Levels, i \in 1..N : Exclude(l, i)
+               \/ last.a = "exclude" /\ Rejuvenate
+            /\ h' = Append(h, last')
 Emit == (Len(h) = MaxDepth) => PrintT(<<"H", ToJson(h)>>)
 HCon == Len(h) <= MaxDepth /\ Emit
 =============================================================================
